@@ -1739,3 +1739,34 @@ Proof.
     + apply IHk in H; [|exact Ht]. eapply prel_trans; [exact E | exact H].
     + intros sa skw. apply IHfn. discriminate.
 Qed.
+
+(* ================================================================== *)
+(** * 8. What a successful read with HASH comparison returns            *)
+(* ================================================================== *)
+
+Lemma m_read_hash_result : forall p cfo w w1 v, HashOk w -> m_read p HASH cfo w = (w1, inl v) ->
+  exists fl, lookup (w_fs w) p = Some (NFile fl) /\ v = hash_of (f_bytes fl).
+Proof.
+  intros p cfo w w1 v Hok E. unfold m_read in E.
+  apply bind_inv in E. destruct E as [(wa & nr & E1 & E) | (e & _ & E)]; [|discriminate E].
+  assert (S1 : hsame w wa) by exact (is_file_no_read_hs p cfo w wa _ E1).
+  apply bind_inv in E. destruct E as [(wb & u & E2 & E) | (e & _ & E)]; [|discriminate E].
+  assert (S2 : hsame wa wb) by (refine ((_ : pres HSPO _) wa wb _ E2); destruct nr as [[|]|]; cbv beta iota; pres_auto).
+  pose proof (hsame_trans _ _ _ S1 S2) as (_ & F2 & N2 & H2).
+  assert (Hokb : HashOk wb).
+  { intros q h b f Hg Hb Hl. rewrite H2 in Hg. rewrite N2 in Hb. rewrite F2 in Hl. eapply Hok; eauto. }
+  apply bind_inv in E. destruct E as [(wc & res & E3 & E) | (e & _ & E)]; [|discriminate E].
+  apply bind_inv in E. destruct E as [(wd & u' & E4 & E) | (e & _ & E)]; [|discriminate E].
+  inversion E; subst wd res; clear E.
+  apply catch_inv in E3. destruct E3 as [(a & E3 & Ea) | (we & e & E3 & E5)].
+  - inversion Ea; subst a. cbn [file_comparison_result] in E3.
+    destruct (file_hash_spec p wb wc _ Hokb E3) as (_ & F3 & _ & S).
+    rewrite F2 in S. destruct (lookup (w_fs w) p) as [[fl|]|] eqn:El.
+    + inversion S; subst v. exists fl. split; reflexivity.
+    + discriminate S.
+    + destruct S as [e S]. discriminate S.
+  - exfalso. destruct (is_os_class XFileNotFound e || is_os_class XNotADirectory e); [discriminate E5|].
+    destruct (is_os_class XIsADirectory e); [|discriminate E5].
+    apply bind_inv in E5. destruct E5 as [(wf & d & _ & E5) | (e' & _ & E5)]; [|discriminate E5].
+    destruct d; discriminate E5.
+Qed.
